@@ -176,7 +176,7 @@ func (c *pbfwIDs) group(r *gen.R, b *pbfw.Block, kind, n int, o pbfw.GenOpts) *p
 
 var c01HeaderParts = []string{"bbox", "required", "optional", "program", "source", "repl_ts", "repl_seq", "repl_url"}
 
-func c01HeaderFile(seed uint64, part string, only bool) *pbfw.File {
+func c01HeaderFile(seed uint64, part string, only bool, zero bool) *pbfw.File {
 	r := gen.New(seed, "c01hdr")
 	h := pbfw.GenHeader(r, pbfw.GenOpts{Full: true, Plain: true})
 	keep := func(p string) bool {
@@ -208,6 +208,19 @@ func c01HeaderFile(seed uint64, part string, only bool) *pbfw.File {
 	}
 	if !keep("repl_url") {
 		h.ReplURL = nil
+	}
+	if zero {
+		// present with the value 0 is not the same as absent
+		z := int64(0)
+		if h.ReplTimestamp != nil {
+			h.ReplTimestamp = &z
+		}
+		if h.ReplSeq != nil {
+			h.ReplSeq = &z
+		}
+		if h.BBox != nil {
+			h.BBox = &[4]int64{0, 0, 0, 0}
+		}
 	}
 	f := pbfw.GenFile(r, pbfw.GenOpts{MinBlocks: 1, MaxBlocks: 2, MaxGroups: 1, MaxElems: 3})
 	f.Header = h
@@ -255,10 +268,11 @@ func c01Exec(c fw.Case) *fw.Result {
 	case "header":
 		part := c01HeaderParts[c.Int("part")]
 		only := c.Int("only") == 1
-		f := c01HeaderFile(c.Seed, part, only)
-		key := fmt.Sprintf("C01/header/%s/only%v", part, only)
+		zero := c.Int("zero") == 1
+		f := c01HeaderFile(c.Seed, part, only, zero)
+		key := fmt.Sprintf("C01/header/%s/only%v/zero%v", part, only, zero)
 		c01Check(res, f, procs, 0, key)
-		res.Eval(fmt.Sprintf("header/%s/only%v", part, only))
+		res.Eval(fmt.Sprintf("header/%s/only%v/zero%v", part, only, zero))
 	case "random":
 		r := gen.New(c.Seed, "c01random")
 		o := pbfw.GenOpts{MinBlocks: 1, MaxBlocks: 12, MaxGroups: 4, MaxElems: 40}
@@ -272,11 +286,14 @@ func c01Exec(c fw.Case) *fw.Result {
 			// decoder's preallocated 8000-slot queue and its inflate buffer grow and are reused
 			o = pbfw.GenOpts{MinBlocks: 2, MaxBlocks: 4, MaxGroups: 2, MaxElems: 9000, SmallStrings: true}
 		}
+		if c.Int("zeros") == 1 {
+			o.ZeroP = 0.3 // present-but-zero values of optional parts
+		}
 		f := pbfw.GenFile(r, o)
 		if c.Int("noheader") == 1 {
 			f.Header = nil
 		}
-		key := fmt.Sprintf("C01/random/profile%d/hdr%v", c.Int("profile"), c.Int("noheader") == 0)
+		key := fmt.Sprintf("C01/random/profile%d/hdr%v/zeros%d", c.Int("profile"), c.Int("noheader") == 0, c.Int("zeros"))
 		c01Check(res, f, procs, int(c.Int("chunk")), key)
 		nontrivial := 0
 		for _, b := range f.Blocks {
@@ -336,8 +353,10 @@ func c01Cases(tier string, seed uint64) []fw.Case {
 			}
 			for pi := range c01HeaderParts {
 				for only := int64(0); only < 2; only++ {
-					cs = append(cs, fw.Case{Kind: "header", Variant: v, Seed: gen.Sub(seed, "c01h", pi*10+rep),
-						P: map[string]int64{"part": int64(pi), "only": only, "procs": 1}})
+					for zero := int64(0); zero < 2; zero++ {
+						cs = append(cs, fw.Case{Kind: "header", Variant: v, Seed: gen.Sub(seed, "c01h", pi*10+rep),
+							P: map[string]int64{"part": int64(pi), "only": only, "procs": 1, "zero": zero}})
+					}
 				}
 			}
 		}
@@ -369,7 +388,7 @@ func c01Cases(tier string, seed uint64) []fw.Case {
 			for k := 0; k < np; k++ {
 				procs := procsList[(i+k)%len(procsList)]
 				cs = append(cs, fw.Case{Kind: "random", Variant: v, Seed: gen.Sub(seed, "c01r", i),
-					P: map[string]int64{"procs": procs, "chunk": chunk, "profile": c01Profile(i), "noheader": int64(b2i(i%11 == 10))}})
+					P: map[string]int64{"procs": procs, "chunk": chunk, "profile": c01Profile(i), "noheader": int64(b2i(i%11 == 10)), "zeros": int64(b2i(i%6 == 4))}})
 			}
 		}
 	}
